@@ -254,10 +254,13 @@ func main() {
 		}
 		nfiles++
 		variants := map[string]string{
-			"crlf":           strings.ReplaceAll(strings.ReplaceAll(string(b), "\r\n", "\n"), "\n", "\r\n"),
-			"final-newline":  strings.TrimRight(string(b), "\n") + "\n",
-			"leading-blank":  "\n\n" + string(b),
-			"tabs-to-spaces": strings.ReplaceAll(string(b), "\t", "    "),
+			"crlf":                 strings.ReplaceAll(strings.ReplaceAll(string(b), "\r\n", "\n"), "\n", "\r\n"),
+			"final-newline":        strings.TrimRight(string(b), "\n") + "\n",
+			"leading-blank":        "\n\n" + string(b),
+			"tabs-to-spaces":       strings.ReplaceAll(string(b), "\t", "    "),
+			"block-comment-at-eof": strings.TrimRight(string(b), "\n") + "\n/* the end */",
+			"line-comment-at-eof":  strings.TrimRight(string(b), "\n") + "\n// the end",
+			"no-final-newline":     strings.TrimRight(string(b), "\n \t"),
 		}
 		for name, text := range variants {
 			states++
